@@ -205,6 +205,7 @@ def handle (op : String) (j : Json) : Option Json :=
                  ("address", addressOk r.column stmts),
                  ("constraints", constraintOk r stmts),
                  ("mustSucceed", mustSucceed d r),
+                 ("complete", constraintComplete d r o),
                  ("plain", plainDefaults r),
                  ("final", stateToJson fin)])
     | _, _, _, _ => some (errJ "bad-op")
